@@ -18,4 +18,6 @@ package gorilla
 //@ property C17 C10
 //@ requires codec != nil && !held(codec.muWrite)
 //@ callreq WriteJSON [writers-never-interleave] : held(codec.muWrite)
+//@ callreq WriteJSON [writes-the-message-itself] : ival(arg0) == msg
+//@ ensures [one-frame-per-message] wsframes == old(wsframes) + 1
 //@ ensures [unlocked] !held(codec.muWrite)
